@@ -1,6 +1,11 @@
 (* Model of WHAT each view of trippy-tui puts on the screen about a hop (C18), and of the row-height
-   arithmetic of the hop table (C17).  NEW model file: executable, but not (yet) part of the extracted
-   model that the differential harness runs against the real code.
+   arithmetic of the hop table (C17).  Executable; the Host cell of every table row (render_hostname,
+   format_address, format_dns_entry, render_hostname_with_details, format_details, fmt_details_line),
+   its row height, and the info panel of the map (build_map_entries, render_map_info_panel) are
+   EXTRACTED (through Tui/Frames.v) and compared, text for text, with what the real frames show
+   (harness mode c18): each fragment below stands for a definite piece of text, see `frag`.  The
+   other views (header, tabs, flows, chart, history, bar, dialogs) are schematic: their fragments say
+   what kind of thing is printed, not its wording, and are not compared.
 
    crates/trippy-tui/src/frontend/render/app.rs      render: header, tabs | flows, body, footer, bar, settings | help
    crates/trippy-tui/src/frontend/render/body.rs     bsod | splash | chart | world | table
@@ -26,21 +31,31 @@ Module TuiViews.
 (* ------------------------------------------------------------------ fragments *)
 
 Inductive frag :=
-| FLit (n : Z)               (* label, number, statistic, key name: nothing that identifies a hop *)
+| FLit (n : Z)               (* the fixed text number n of the table below (in the schematic views: some label,
+                                number, statistic, key name): nothing that identifies a hop *)
+| FNum (n : Z)               (* the number n in decimal (a ttl, an index, a count) *)
+| FPct (n d : Z)             (* format!("{:.1}%", n / d * 100): how often an address answered *)
 | FAddr (ttl a : Z)          (* IP address a of the hop with this ttl *)
-| FHost (ttl a : Z)          (* reverse-DNS host names of address a of that hop *)
-| FAs (ttl a : Z)            (* AS number / name / prefix / registry of address a of that hop *)
-| FGeo (ttl a : Z)           (* GeoIP names / coordinates looked up for address a of that hop *)
-| FLoc (ttl name : Z)        (* a map location (long name + coordinates) printed for the hop with this ttl *)
+| FHost (ttl a : Z)          (* reverse-DNS host names of address a of that hop, `hosts.join(" ")` *)
+| FAs (ttl a k : Z)          (* AS info of address a of that hop; k = AS_TABLE: format_asinfo in the configured AsMode,
+                                AS_NAME: "AS{asn} {name}", AS_INFO: "{prefix} {registry} {allocated}" *)
+| FGeo (ttl a k : Z)         (* GeoIP data looked up for address a of that hop; k = 1 short_name(), 2 long_name(),
+                                3 location(), GEO_POS: "{lat}, {long} (~{radius}km)" of coordinates().unwrap_or_default() *)
+| FLoc (ttl name : Z)        (* a map location "{long_name} [{lat}, {long} ~{radius}km]" printed for the hop with this ttl *)
 | FSrc                       (* source address / host name *)
 | FDest (t : Z).             (* target host name / address trace t was started with *)
 
 (* the hop a fragment tells something about *)
 Definition frag_ttl (f : frag) : option Z :=
   match f with
-  | FAddr t _ | FHost t _ | FAs t _ | FGeo t _ | FLoc t _ => Some t
+  | FAddr t _ | FHost t _ | FAs t _ _ | FGeo t _ _ | FLoc t _ => Some t
   | _ => None
   end.
+
+Definition AS_TABLE := 0.
+Definition AS_NAME := 10.
+Definition AS_INFO := 11.
+Definition GEO_POS := 4.
 
 (* what the map canvas draws besides the world *)
 Inductive mark :=
@@ -48,16 +63,42 @@ Inductive mark :=
 | MRadius (name : Z)               (* its accuracy circle (when large enough) *)
 | MSelBox (name : Z) (ttl : Z).    (* the selection rectangle around a location, drawn for the selected hop *)
 
-(* literals (only their being literals matters) *)
-Definition L_HIDDEN := 1.
-Definition L_NO_RESPONSE := 2.
-Definition L_DNS_FAILED := 3.
-Definition L_DNS_TIMEOUT := 4.
-Definition L_NO_ADDR_FOR_INDEX := 5.
-Definition L_NOT_FOUND := 6.
-Definition L_AWAITED := 7.
-Definition L_NOT_ENABLED := 8.
-Definition L_LABEL := 9.
+(* the fixed texts (locale en); for the theorems only their being literals matters, the wording is
+   what the correspondence compares (ocaml/d_tui.ml `lit`) *)
+Definition L_HIDDEN := 1.             (* "**Hidden**" *)
+Definition L_NO_RESPONSE := 2.        (* "No response" *)
+Definition L_DNS_FAILED := 3.         (* "Failed" *)
+Definition L_DNS_TIMEOUT := 4.        (* "Timeout" *)
+Definition L_NO_ADDR_FOR_INDEX := 5.  (* "Error: no addr for index " *)
+Definition L_NOT_FOUND := 6.          (* "not found" *)
+Definition L_AWAITED := 7.            (* "awaited" *)
+Definition L_NOT_ENABLED := 8.        (* "not enabled" *)
+Definition L_LABEL := 9.              (* some label of a schematic view *)
+Definition L_NL := 10.                (* end of line *)
+Definition L_SP := 11.                (* " " *)
+Definition L_LBR := 12.               (* " [" *)
+Definition L_RBR := 13.               (* "]" *)
+Definition L_LPAR := 14.              (* " (" *)
+Definition L_RPAR := 15.              (* ")" *)
+Definition L_COLON := 16.             (* ": " *)
+Definition L_LT := 17.                (* "<" *)
+Definition L_GT := 18.                (* ">" *)
+Definition L_OF := 19.                (* " of " *)
+Definition L_COMMA := 20.             (* ", " *)
+Definition L_AS := 21.                (* "AS " *)
+Definition L_NAME := 22.              (* "Name" *)
+Definition L_INFO := 23.              (* "Info" *)
+Definition L_HOST := 24.              (* "Host" *)
+Definition L_GEO := 25.               (* "Geo" *)
+Definition L_POS := 26.               (* "Pos" *)
+Definition L_EXT := 27.               (* "Ext" *)
+Definition L_NONE := 28.              (* "none" *)
+Definition L_HOP := 29.               (* "Hop" *)
+Definition L_GEOIP_NOT_ENABLED := 30. (* "GeoIp not enabled" *)
+Definition L_GEOIP_NO_DATA := 31.     (* "No GeoIp data for hop" *)
+Definition L_GEOIP_MULTIPLE := 32.    (* "Multiple GeoIp locations for hop" *)
+Definition L_TARGET := 33.            (* "Target" *)
+Definition L_ARROW := 34.             (* " -> " *)
 
 (* ------------------------------------------------------------------ configuration and data *)
 
@@ -94,26 +135,45 @@ Definition clamp_r (x lo hi : Z) : result Z :=
 
 (* ------------------------------------------------------------------ table.rs *)
 
-(* format_dns_entry *)
+(* `pieces.join(sep)` *)
+Fixpoint join_frags (sep : list frag) (ls : list (list frag)) : list frag :=
+  match ls with
+  | [] => []
+  | l :: r => match r with [] => l | _ :: _ => l ++ sep ++ join_frags sep r end
+  end.
+
+(* "<text>" *)
+Definition angle (n : Z) : list frag := [FLit L_LT; FLit n; FLit L_GT].
+
+(* format_dns_entry (a Resolved entry is taken to have at least one host name) *)
 Definition format_dns_entry (ttl a : Z) (e : dns_entry) (lookup_as : bool) : list frag :=
   match e with
   | DResolved None => [FHost ttl a]
-  | DResolved (Some asn_empty) => if lookup_as && negb asn_empty then [FAs ttl a; FHost ttl a] else [FHost ttl a]
+  | DResolved (Some asn_empty) =>
+    if lookup_as && negb asn_empty then [FAs ttl a AS_TABLE; FLit L_SP; FHost ttl a] else [FHost ttl a]
   | DNotFound None | DPending => [FAddr ttl a]
-  | DNotFound (Some asn_empty) => if lookup_as && negb asn_empty then [FAs ttl a; FAddr ttl a] else [FAddr ttl a]
-  | DFailed => [FLit L_DNS_FAILED; FAddr ttl a]
-  | DTimeout => [FLit L_DNS_TIMEOUT; FAddr ttl a]
+  | DNotFound (Some asn_empty) =>
+    if lookup_as && negb asn_empty then [FAs ttl a AS_TABLE; FLit L_SP; FAddr ttl a] else [FAddr ttl a]
+  | DFailed => [FLit L_DNS_FAILED; FLit L_COLON; FAddr ttl a]
+  | DTimeout => [FLit L_DNS_TIMEOUT; FLit L_COLON; FAddr ttl a]
   end.
 
-(* format_address: address / host per address mode, then [geo] [extensions] [NAT] [frequency] *)
-Definition format_address (c : vcfg) (ttl : Z) (af : Z * Z) : list frag :=
+(* format_address: one line of the Host cell: address / host per address mode, then " [geo]" and, for a hop
+   with several addresses, " [frequency]".  (Between the two the code prints " [extensions]" and " [NAT]" for
+   a hop that carries ICMP extensions / for which NAT was detected: hops without either are modelled.) *)
+Definition format_address (c : vcfg) (h : vhop) (af : Z * Z) : list frag :=
+  let ttl := h_ttl h in
   let a := fst af in
   let host := format_dns_entry ttl a (c_dns c (c_as_info c) a) (c_as_info c) in
   let addr_fmt := if c_addr_mode c =? 0 then [FAddr ttl a]
-                  else if c_addr_mode c =? 1 then host else host ++ [FAddr ttl a] in
+                  else if c_addr_mode c =? 1 then host else host ++ [FLit L_LPAR; FAddr ttl a; FLit L_RPAR] in
   let geo := if c_geo_mode c =? 0 then []
-             else match c_geo c a with Some _ => [FGeo ttl a] | None => [] end in
-  addr_fmt ++ geo ++ [FLit L_LABEL; FLit L_LABEL; FLit (snd af)].
+             else match c_geo c a with
+                  | Some _ => [FLit L_LBR; FGeo ttl a (c_geo_mode c); FLit L_RBR]
+                  | None => []
+                  end in
+  let freq := if zlen (h_info h) >? 1 then [FLit L_LBR; FPct (snd af) (h_total_recv h); FLit L_RBR] else [] in
+  addr_fmt ++ geo ++ freq.
 
 (* the addresses render_hostname prints: all, or the max_addrs most frequent *)
 Definition shown_addrs (c : vcfg) (h : vhop) : list (Z * Z) :=
@@ -125,9 +185,13 @@ Definition shown_addrs (c : vcfg) (h : vhop) : list (Z * Z) :=
 Definition text_frags (t : text (list frag)) : list frag :=
   match t with Hidden => [FLit L_HIDDEN] | NoResponse => [FLit L_NO_RESPONSE] | Shown l => l end.
 
+(* the lines of the normal branch of render_hostname: one per shown address, `.join("\n")` *)
+Definition host_lines (c : vcfg) (h : vhop) : list frag :=
+  join_frags [FLit L_NL] (map (format_address c h) (shown_addrs c h)).
+
 (* render_hostname: the Host cell (decision: TuiPrivacy.render_hostname) *)
 Definition host_cell (c : vcfg) (h : vhop) : list frag :=
-  text_frags (render_hostname (c_privacy c) (fun h => flat_map (format_address c (h_ttl h)) (shown_addrs c h)) h).
+  text_frags (render_hostname (c_privacy c) (host_lines c) h).
 
 (* ... and the row height it returns *)
 Definition host_rows (c : vcfg) (h : vhop) : result Z :=
@@ -139,25 +203,40 @@ Definition host_rows (c : vcfg) (h : vhop) : result Z :=
          end
   else Ok 1.
 
-(* fmt_details_line / format_details: the seven detail lines of address number `offset` *)
+(* fmt_details_line / format_details: the seven detail lines of address number `offset`
+     {addr} [{index} of {count}] / Host: .. / AS Name: .. / AS Info: .. / Geo: .. / Pos: .. / Ext: <none>
+   (hops without ICMP extensions and without detected NAT, as above) *)
 Definition format_details (c : vcfg) (h : vhop) (offset : Z) : list frag :=
   let ttl := h_ttl h in
   match nth_error (h_info h) (Z.to_nat offset) with
-  | None => [FLit L_NO_ADDR_FOR_INDEX]
+  | None => [FLit L_NO_ADDR_FOR_INDEX; FNum offset]
   | Some af =>
     let a := fst af in
-    let geo := match c_geo c a with Some _ => [FGeo ttl a] | None => [FLit L_NOT_FOUND] end in
+    let geo := match c_geo c a with
+               | Some _ => [FLit L_GEO; FLit L_COLON; FGeo ttl a 2; FLit L_NL; FLit L_POS; FLit L_COLON; FGeo ttl a GEO_POS]
+               | None => [FLit L_GEO; FLit L_COLON] ++ angle L_NOT_FOUND ++ [FLit L_NL; FLit L_POS; FLit L_COLON] ++ angle L_NOT_FOUND
+               end in
+    let as2 (x y : list frag) :=
+      [FLit L_AS; FLit L_NAME; FLit L_COLON] ++ x ++ [FLit L_NL; FLit L_AS; FLit L_INFO; FLit L_COLON] ++ y in
     let as_fmt (asinfo : option bool) :=
-      if c_as_info c then match asinfo with Some false => [FAs ttl a] | Some true => [FLit L_NOT_FOUND] | None => [FLit L_AWAITED] end
-      else [FLit L_NOT_ENABLED] in
+      if c_as_info c then
+        match asinfo with
+        | Some false => as2 [FAs ttl a AS_NAME] [FAs ttl a AS_INFO]
+        | Some true => as2 (angle L_NOT_FOUND) (angle L_NOT_FOUND)
+        | None => (* sic: the arguments of this format! are permuted in the code, it prints
+                     "AS Name: <Info>" / "AS awaited: <awaited>" *)
+          [FLit L_AS; FLit L_NAME; FLit L_COLON] ++ angle L_INFO ++ [FLit L_NL; FLit L_AS; FLit L_AWAITED; FLit L_COLON] ++ angle L_AWAITED
+        end
+      else as2 (angle L_NOT_ENABLED) (angle L_NOT_ENABLED) in
     let line (hosts : list frag) (asinfo : option bool) :=
-      [FAddr ttl a; FLit L_LABEL] ++ hosts ++ as_fmt asinfo ++ geo ++ [FLit L_LABEL] in
+      [FAddr ttl a; FLit L_LBR; FNum (offset + 1); FLit L_OF; FNum (zlen (h_info h)); FLit L_RBR; FLit L_NL; FLit L_HOST; FLit L_COLON] ++
+      hosts ++ [FLit L_NL] ++ as_fmt asinfo ++ [FLit L_NL] ++ geo ++ [FLit L_NL; FLit L_EXT; FLit L_COLON] ++ angle L_NONE in
     match c_dns c (c_as_info c) a with
-    | DPending => line [FLit L_AWAITED] None
+    | DPending => line (angle L_AWAITED) None
     | DResolved asinfo => line [FHost ttl a] asinfo
-    | DNotFound asinfo => line [FLit L_NOT_FOUND] asinfo
-    | DFailed => [FLit L_DNS_FAILED; FAddr ttl a]
-    | DTimeout => [FLit L_DNS_TIMEOUT; FAddr ttl a]
+    | DNotFound asinfo => line (angle L_NOT_FOUND) asinfo
+    | DFailed => [FLit L_DNS_FAILED; FLit L_COLON; FAddr ttl a]
+    | DTimeout => [FLit L_DNS_TIMEOUT; FLit L_COLON; FAddr ttl a]
     end
   end.
 
@@ -209,9 +288,13 @@ Fixpoint map_r {A B} (f : A -> result B) (l : list A) : result (list B) :=
   | x :: t => let* y := f x in let* r := map_r f t in Ok (y :: r)
   end.
 
-Definition table_view (st : vstate) : result (list frag) :=
+(* the rows of the table: text and height of each *)
+Definition table_rows (st : vstate) : result (list (list frag * Z)) :=
   let* sel := selected_hop st in
-  let* rows := map_r (table_row st sel) (s_hops st) in
+  map_r (table_row st sel) (s_hops st).
+
+Definition table_view (st : vstate) : result (list frag) :=
+  let* rows := table_rows st in
   Ok (map FLit (s_cols st) ++ flat_map fst rows).
 
 (* ------------------------------------------------------------------ world.rs *)
@@ -238,18 +321,20 @@ Definition map_marks (c : vcfg) (es : list (Z * list Z)) (sel_ttl : Z) : list ma
          (if existsb (fun t => t =? sel_ttl) (snd e) then [MSelBox (fst e) sel_ttl] else [])
     else []) es.
 
-(* render_map_info_panel (decision: TuiPrivacy.render_map_info_panel) *)
+(* render_map_info_panel (decision: TuiPrivacy.render_map_info_panel): the title "Hop {ttl}" of the panel,
+   then its one line of text *)
 Definition map_info (c : vcfg) (es : list (Z * list Z)) (sel : vhop) : list frag :=
   let ttl := h_ttl sel in
-  [FLit L_LABEL; FLit ttl] ++
+  [FLit L_HOP; FLit L_SP; FNum ttl; FLit L_NL] ++
   text_frags (render_map_info_panel (c_privacy c) (fun sel =>
-    if negb (c_mmdb c) then [FLit L_NOT_ENABLED]
+    if negb (c_mmdb c) then [FLit L_GEOIP_NOT_ENABLED]
     else match filter (fun e => existsb (fun t => t =? ttl) (snd e)) es with
          | [] => if zlen (h_info sel) >? 0
-                 then [FLit L_LABEL; FLit ttl] ++ map (fun af => FAddr ttl (fst af)) (h_info sel)
-                 else [FLit L_LABEL; FLit ttl]
+                 then [FLit L_GEOIP_NO_DATA; FLit L_SP; FNum ttl; FLit L_LPAR] ++
+                      join_frags [FLit L_COMMA] (map (fun af => [FAddr ttl (fst af)]) (h_info sel)) ++ [FLit L_RPAR]
+                 else [FLit L_GEOIP_NO_DATA; FLit L_SP; FNum ttl]
          | [e] => [FLoc ttl (fst e)]
-         | _ => [FLit L_LABEL; FLit ttl]
+         | _ => [FLit L_GEOIP_MULTIPLE; FLit L_SP; FNum ttl]
          end) sel).
 
 Definition world_view (st : vstate) : result (list frag * list mark) :=
@@ -260,10 +345,13 @@ Definition world_view (st : vstate) : result (list frag * list mark) :=
 (* ------------------------------------------------------------------ the other views *)
 
 (* header.rs: title, clock, key hints, "Target: source -> destination", status, hop and flow counts *)
+(* the line "Target: {source} -> {destination}" (compared with the real frames like the table cells) *)
+Definition target_line (privacy : option Z) (trace_sel : Z) : list frag :=
+  [FLit L_TARGET; FLit L_COLON] ++ text_frags (render_source privacy [FSrc]) ++ [FLit L_ARROW] ++
+  text_frags (render_destination privacy [FDest trace_sel]).
+
 Definition header_view (st : vstate) : list frag :=
-  [FLit L_LABEL; FLit L_LABEL] ++
-  text_frags (render_source (c_privacy (s_cfg st)) [FSrc]) ++
-  text_frags (render_destination (c_privacy (s_cfg st)) [FDest (s_trace_sel st)]) ++
+  [FLit L_LABEL] ++ target_line (c_privacy (s_cfg st)) (s_trace_sel st) ++
   [FLit L_LABEL; FLit (zlen (s_hops st)); FLit (zlen (s_flow_counts st))].
 
 (* tabs.rs: one title per trace, its target_hostname *)
@@ -301,6 +389,20 @@ Definition body_view (st : vstate) : result (list frag * list mark) :=
   else if s_chart st then let* t := chart_view st in Ok (t, [])
   else if s_map st then world_view st
   else let* t := table_view st in Ok (t, []).
+
+(* body.rs once more, keeping the structure the flat text above forgets: which view, and row by row *)
+Inductive body :=
+| BError | BSplash
+| BChart (t : list frag)
+| BMap (info : list frag) (marks : list mark)
+| BTable (rows : list (list frag * Z)).
+
+Definition body_struct (st : vstate) : result body :=
+  if s_error st then Ok BError
+  else if s_no_data st then Ok BSplash
+  else if s_chart st then let* t := chart_view st in Ok (BChart t)
+  else if s_map st then let* w := world_view st in Ok (BMap (fst w) (snd w))
+  else let* rows := table_rows st in Ok (BTable rows).
 
 (* app.rs render *)
 Definition render (st : vstate) : result (list frag * list mark) :=
